@@ -26,7 +26,7 @@ class LdrRegisterThumb(Opcode):
                 data = processor.mem_u_get(address, 4)
                 if self.t == 15:
                     if lower_chunk(address, 2) == 0b00:
-                        processor.load_write_pc(address)
+                        processor.load_write_pc(data)
                     else:
                         print('unpredictable')
                 elif processor.unaligned_support() or lower_chunk(address, 2) == 0b00:
